@@ -4,9 +4,10 @@
 (*   NtsPacket_exh.cfg   every shape with <= 3 fields x every cell x every *)
 (*                       replacement (all lengths 0..LenTop)               *)
 (*   NtsPacket_deep.cfg  <= 5 fields                                       *)
-(*   NtsPacket_repaired.cfg  as _exh with placeholders typed 0x304          *)
+(*   NtsPacket_phcookie.cfg  as _exh with placeholders typed as cookies     *)
+(*                       (the code before the repair of C11/C14's finding) *)
 (*   NtsPacket_gen.cfg   case generator: the shapes the real encoder can   *)
-(*                       emit (1..7 fields), representative replacements   *)
+(*                       emit (1..8 fields), representative replacements   *)
 (*   NtsPacket_f_*.cfg   fault switches: Sound must FAIL (vacuity check)   *)
 (***************************************************************************)
 EXTENDS NtsPacket, Json
@@ -22,7 +23,7 @@ LenChoicesGen(x) == {0, 1, 2, 3, x - 1, x + 1, x + 2 + CookieLen, 400} \cap (0 .
 \* Case emitter (spec -> code): one line per completed behaviour
 Emit == Observed =>
   PrintT(<<"CASE", ToJson([role |-> role, nf |-> nf, kind |-> mut.kind, region |-> mut.region, fi |-> mut.fi,
-                           sub |-> mut.sub, alt |-> mut.alt, out |-> outcome, opened |-> ck.opened])>>)
+                           sub |-> mut.sub, alt |-> mut.alt, out |-> outcome, opened |-> ck.opened, cok |-> ck.cok])>>)
 
 \* used by the fault configurations: the property is expected to be violated
 ASSUME DirectionsDistinct
